@@ -1,8 +1,8 @@
 #!/bin/bash
-# usage: mut.sh <ID> <file> <python-expr-old> <new>   : apply a textual mutation to /repo, run the check, revert
+# usage: mut.sh <ID> <file> <old> <new> : apply a textual mutation to a SCRATCH COPY of /repo, run the check on it, remove the copy
 ID=$1; F=$2; OLD=$3; NEW=$4
-cd /repo
-python3 - "$F" "$OLD" "$NEW" <<'PY'
+T=/tmp/mut.$$; rm -rf $T; cp -r /repo $T; rm -rf $T/.git
+python3 - "$T/$F" "$OLD" "$NEW" <<'PY'
 import sys
 f,old,new=sys.argv[1:4]
 s=open(f).read()
@@ -10,8 +10,7 @@ if s.count(old)<1:
     print("MUTATION: pattern not found"); sys.exit(3)
 open(f,'w').write(s.replace(old,new,1))
 PY
-[ $? = 3 ] && exit 3
-git -C /repo diff --stat | tail -1
-cd /verif && timeout ${MUT_TIMEOUT:-900} ./check $ID ${TIER:-quick} 2>&1 | grep -v "^KNOWN-FINDING" | head -${LINES_MAX:-12}
+[ $? = 3 ] && { rm -rf $T; exit 3; }
+cd /verif && VERIF_REPO=$T VERIF_WORKTAG=.mut$$ timeout ${MUT_TIMEOUT:-900} ./check $ID ${TIER:-quick} 2>&1 | grep -v "^KNOWN-FINDING" | head -${LINES_MAX:-12}
 echo "rc=${PIPESTATUS[0]}"
-git -C /repo checkout -- .
+rm -rf $T
